@@ -60,7 +60,7 @@ def r1(ctx):
               role="fallback:noop", expected="def wrapped(*a, **k): return func(*a, **k)", found="different shape")
     fn = ana.func("numba_guard.fake_njit")
     rets = [n for n in Resolver.walk_own(fn.node) if isinstance(n, ast.Return)]
-    b = ana.builder(fn, no_inline=lambda f: True)
+    b = ana.builder(fn, no_inline=ana.known)
     rt = b.return_term()
     good = False
     if isinstance(rt, tm.PW):
@@ -69,7 +69,7 @@ def r1(ctx):
     ctx.check(good, fn, "fake_njit(*args, **kwargs) returns a decorator: numba.njit(*args, **kwargs) or the no-op decorator",
               role="fallback:njit", expected="numba.njit(*a, **k) | noop_decorator", found=str(rt)[:120])
     fp = ana.func("numba_guard.fake_prange")
-    bp = ana.builder(fp, no_inline=lambda f: True)
+    bp = ana.builder(fp, no_inline=ana.known)
     rp = bp.return_term()
     good = False
     if isinstance(rp, tm.PW):
@@ -313,7 +313,7 @@ def r4(ctx):
     cs = calls_to(ana, caller, kern.qualname)
     if not cs:
         raise AnalysisError("likelihood table kernel is not called from its wrapper")
-    bc = ana.builder(caller, no_inline=lambda f: True)
+    bc = ana.builder(caller, no_inline=ana.known)
     for c in cs:
         ba = bind_args(kern, c.node)
         m = Sym(caller.params[0])
